@@ -100,8 +100,12 @@ structure ExactlyOneReply {σ} (s s' : DevState σ) (src : Bytes) (inv : Nat) (o
 theorem spoofed_noSadr (n : Option Nat) (h : Npci.Npci) (hs : h.sadr = none) : spoofed n h = false := by
   simp [spoofed, hs]
 
-theorem reply_exists {σ} (cfg : DevCfg σ) (hw : cfg.base.window < 256) (s : DevState σ)
-    (src : Bytes) (bcast : Bool) (f : Bytes) (inv : Nat)
+/-- the application answers every indication of a confirmed request before it returns (what
+    `Application.indication` does with every stock service helper) -/
+def Synchronous {σ} (cfg : DevCfg σ) : Prop := ∀ st p a, ((cfg.serve st p a).2.answer).isSome = true
+
+theorem reply_exists {σ} (cfg : DevCfg σ) (hw : cfg.base.window < 256) (hsync : Synchronous cfg)
+    (s : DevState σ) (src : Bytes) (bcast : Bool) (f : Bytes) (inv : Nat)
     (hwf : wellFramed f = some inv)
     (hdcc : listening s.sap.dcc f)
     (hfree : findTxn ⟨peerOf (.localStation src), inv⟩ s.sap.servers = none) :
@@ -134,7 +138,7 @@ theorem reply_exists {σ} (cfg : DevCfg σ) (hw : cfg.base.window < 256) (s : De
         · simp only [serviceOf] at h
           cases hd : s.sap.dcc <;> simp [ha0, hasvc, h]
       have hdel := deliver_fresh cfg hw s ⟨peerOf (.localStation src), i.toNat⟩ a ha0 haseg haid
-        (UInt8.toNat_lt i) (by rw [hasvc]; exact UInt8.toNat_lt svc) hgate hfree
+        (UInt8.toNat_lt i) (by rw [hasvc]; exact UInt8.toNat_lt svc) hgate hfree (fun st => hsync st _ _)
       obtain ⟨⟨x, hx, houts, hcase⟩, hroutes, hclients⟩ := hdel
       dsimp only at houts hroutes hclients hcase
       rw [houts]
@@ -169,11 +173,12 @@ theorem good_init {σ} (app : σ) : Good ({ app := app } : DevState σ) := ⟨In
 theorem garbage_leaves_nothing {σ} (cfg : DevCfg σ) (hpos : cfg.base.TimeoutsPos)
     (s0 : DevState σ) (hg : Good s0) (garbage : List Dgram) :
     let s := (quiesce cfg (recvAll cfg s0 garbage).1).1
-    s.sap.servers = [] ∧ s.sap.clients = [] ∧ armed s.sap = [] ∧ s.nniPending = false ∧ Good s := by
+    s.sap.servers = [] ∧ s.sap.clients = [] ∧ armed s.sap = [] ∧ s.nniPending = false ∧
+      s.dccTimer = none ∧ Good s := by
   intro s
   have h1 := recvAll_good (tsm_pos hpos) garbage hg
-  obtain ⟨h2, h3, _, _, h5⟩ := quiesce_done (tsm_pos hpos) h1
-  refine ⟨h3, h2.2, ?_, h5, h2⟩
+  obtain ⟨h2, h3, _, _, h5, h6⟩ := quiesce_done (tsm_pos hpos) h1
+  refine ⟨h3, h2.2, ?_, h5, h6, h2⟩
   show ((quiesce cfg (recvAll cfg s0 garbage).1).1.sap.clients ++
         (quiesce cfg (recvAll cfg s0 garbage).1).1.sap.servers).filterMap _ = []
   rw [h3, h2.2]
@@ -335,7 +340,7 @@ theorem dropped_absent {σ} (cfg : DevCfg σ) (s : DevState σ) (xs ys : List Dg
 /-- **queued_request_answered.**  A well-framed request queued behind ANY
     datagrams: its own processing step yields exactly one reply (the outputs of
     the whole queue are those of the prefix, then that reply, then those of the rest). -/
-theorem queued_request_answered {σ} (cfg : DevCfg σ) (hw : cfg.base.window < 256)
+theorem queued_request_answered {σ} (cfg : DevCfg σ) (hw : cfg.base.window < 256) (hsync : Synchronous cfg)
     (s : DevState σ) (xs ys : List Dgram) (src : Bytes) (bcast : Bool) (f : Bytes) (inv : Nat)
     (hwf : wellFramed f = some inv)
     (hdcc : listening (recvAll cfg s xs).1.sap.dcc f)
@@ -344,21 +349,71 @@ theorem queued_request_answered {σ} (cfg : DevCfg σ) (hw : cfg.base.window < 2
       (recvAll cfg s (xs ++ ⟨src, bcast, f⟩ :: ys)).2 =
         (recvAll cfg s xs).2 ++ reply ++ (recvAll cfg s1 ys).2 := by
   refine ⟨(recv cfg (recvAll cfg s xs).1 src bcast f).1, (recv cfg (recvAll cfg s xs).1 src bcast f).2,
-    reply_exists cfg hw _ src bcast f inv hwf hdcc hfree, ?_⟩
+    reply_exists cfg hw hsync _ src bcast f inv hwf hdcc hfree, ?_⟩
   rw [recvAll_append]
   simp [recvAll, List.append_assoc]
 
 /-- **answered_after_garbage.**  After ANY datagrams and quiescence, every
     well-framed request the DCC gate lets in gets exactly one reply. -/
 theorem answered_after_garbage {σ} (cfg : DevCfg σ) (hpos : cfg.base.TimeoutsPos)
-    (hw : cfg.base.window < 256) (s0 : DevState σ) (hg : Good s0) (garbage : List Dgram)
+    (hw : cfg.base.window < 256) (hsync : Synchronous cfg) (s0 : DevState σ) (hg : Good s0) (garbage : List Dgram)
     (src : Bytes) (bcast : Bool) (f : Bytes) (inv : Nat) (hwf : wellFramed f = some inv)
     (hdcc : listening (quiesce cfg (recvAll cfg s0 garbage).1).1.sap.dcc f) :
     ExactlyOneReply (quiesce cfg (recvAll cfg s0 garbage).1).1
       (recv cfg (quiesce cfg (recvAll cfg s0 garbage).1).1 src bcast f).1 src inv
       (recv cfg (quiesce cfg (recvAll cfg s0 garbage).1).1 src bcast f).2 := by
   have h := (garbage_leaves_nothing cfg hpos s0 hg garbage).1
-  exact reply_exists cfg hw _ src bcast f inv hwf hdcc (by rw [h]; rfl)
+  exact reply_exists cfg hw hsync _ src bcast f inv hwf hdcc (by rw [h]; rfl)
+
+/-! ## an application that answers later (gateway style) -/
+
+/-- the application answers later a request whose transaction still exists: exactly one reply -/
+theorem late_answer {σ} (cfg : DevCfg σ) (hw : cfg.base.window < 256) (s : DevState σ) (src : Bytes)
+    (req : Apdu) (ans : AppAnswer) (hid : req.invokeId < 256) (hsvc : req.service < 256) {t : Txn}
+    (hfound : findTxn ⟨peerOf (.localStation src), req.invokeId⟩ s.sap.servers = some t) :
+    ∃ fr hdr, (respond cfg s (peerOf (.localStation src)) req ans).2 = [fr] ∧ fr.dst = some src ∧
+      replyHdr fr.octets = some hdr ∧ hdr.invoke = req.invokeId ∧
+      (hdr.ty = 2 ∨ hdr.ty = 3 ∨ hdr.ty = 5 ∨ hdr.ty = 6 ∨ hdr.ty = 7) := by
+  obtain ⟨hrep, hrs⟩ := respApdu_isReply hid hsvc ans
+  generalize hk : (⟨peerOf (.localStation src), req.invokeId⟩ : Key) = k at hfound
+  have hkid : k.id = req.invokeId := by rw [← hk]
+  have hkp : k.peer = peerOf (.localStation src) := by rw [← hk]
+  have htk : t.key = k := (findTxn_some hfound).2
+  have hkk : (⟨peerOf (.localStation src), (respApdu req ans).invokeId⟩ : Key) = k := by
+    rw [hrep.id]; exact hk
+  rw [← hkid] at hrep
+  unfold respond
+  rw [step_response _ _ _ hrep.tyOk]
+  unfold smapResponse
+  simp only [hrep.tyOk, if_true, hkk, hfound, Sap.setServer, htk]
+  have aux : ∀ npdu, ∃ fr hdr,
+      (emitAll s.net s.routes (asapPass cfg.tsm
+        ({ s.sap with servers := updFirst k (Prod.fst (serverConfirmation cfg.tsm s.sap.now npdu k t.body (respApdu req ans))) s.sap.servers } : Sap)
+        (Prod.snd (serverConfirmation cfg.tsm s.sap.now npdu k t.body (respApdu req ans)))).2) = [fr] ∧
+      fr.dst = some src ∧ replyHdr fr.octets = some hdr ∧ hdr.invoke = req.invokeId ∧
+      (hdr.ty = 2 ∨ hdr.ty = 3 ∨ hdr.ty = 5 ∨ hdr.ty = 6 ∨ hdr.ty = 7) := by
+    intro npdu
+    obtain ⟨x, hx, hcase⟩ := serverConfirmation_answer (cfg := cfg.tsm) (by simpa using hw) (now := s.sap.now)
+      (npdu := npdu) (b0 := t.body) hrep hrs
+    obtain ⟨fr, hdr, hemit, hdst, hhdr, hinv, hty, _⟩ := emit_reply s.net s.routes src hx
+    refine ⟨fr, hdr, ?_, hdst, hhdr, by rw [hinv, hkid], ?_⟩
+    · rcases hcase with ⟨he, _⟩ | ⟨b', he, _⟩
+      · rw [he]; dsimp only; rw [asapPass_send]; simp [emitAll, emit, hkp, hemit]
+      · rw [he]; dsimp only; rw [asapPass_send]; simp [emitAll, emit, hkp, hemit]
+    · rw [hty]; rcases hx.shape with h | h | h | h | h <;> simp [h.1]
+  exact aux _
+
+/-- … and one whose transaction is gone (the application timeout ran): nothing is sent -/
+theorem late_answer_dropped {σ} (cfg : DevCfg σ) (s : DevState σ) (peer : Peer) (req : Apdu) (ans : AppAnswer)
+    (hgone : findTxn ⟨peer, req.invokeId⟩ s.sap.servers = none) :
+    respond cfg s peer req ans = (s, []) := by
+  have hty : ((respApdu req ans).ty = 2 || (respApdu req ans).ty = 3 || (respApdu req ans).ty = 5 ||
+      (respApdu req ans).ty = 6 || (respApdu req ans).ty = 7) = true := by cases ans <;> rfl
+  have hidr : (respApdu req ans).invokeId = req.invokeId := by cases ans <;> rfl
+  unfold respond
+  rw [step_response _ _ _ hty]
+  unfold smapResponse
+  simp only [hty, if_true, hidr, hgone, asapPass, emitAll, List.flatMap_nil]
 
 /-! ## obligations against the regenerated tables -/
 
@@ -384,7 +439,7 @@ theorem defaults_meet_hypotheses :
 def exCfg : DevCfg Unit :=
   { base := { Gen.TsmDefaults.cfg with seg := .both, maxSegs := some 16, segTimeout := 5000 },
     env := Gen.Schemas.env, confirmed := Gen.Schemas.confirmed, unconfirmed := Gen.Schemas.unconfirmed,
-    serve := fun _ _ _ => ((), { answer := .complexAck [0x0c, 0x00, 0x80, 0x00, 0x01, 0x19, 0x55, 0x3e, 0x44, 0x41, 0x48, 0x00, 0x00, 0x3f] }),
+    serve := fun _ _ _ => ((), { answer := some (.complexAck [0x0c, 0x00, 0x80, 0x00, 0x01, 0x19, 0x55, 0x3e, 0x44, 0x41, 0x48, 0x00, 0x00, 0x3f]) }),
     unconf := fun _ _ _ => ((), []) }
 
 def ex0 : DevState Unit := { app := () }
@@ -398,6 +453,7 @@ example : listening ex0.sap.dcc rp := by decide
 example : findTxn ⟨peerOf (.localStation [0x0a]), 1⟩ ex0.sap.servers = none := rfl
 example : exCfg.base.TimeoutsPos ∧ exCfg.base.window < 256 := ⟨⟨by decide, by decide, by decide⟩, by decide⟩
 example : Good ex0 := good_init ()
+example : Synchronous exCfg := fun _ _ _ => rfl
 
 /-- the valid request: complex ack with invoke ID 1 -/
 example : (recv exCfg ex0 [0x0a] false rp).2 =
